@@ -112,7 +112,7 @@ class Gen:
     def lengths(self, k, mult=1):
         """message lengths for the k-th parameter combination of a suite"""
         if self.tier == "quick":
-            ls = [l for l in DENSE if (l + k) % 5 == 0] + [BOUNDS[(3 * k + i) % len(BOUNDS)] for i in range(2)]
+            ls = [l for l in DENSE if (l + k) % 2 == 0 or l <= 17] + [BOUNDS[(3 * k + i) % len(BOUNDS)] for i in range(3)]
         else:
             ls = DENSE + BOUNDS
         if mult > 1:
